@@ -23,6 +23,7 @@
 
 #include "decoder.h"           // for decode_file, destroy_decoder, new_decoder
 #include "tokens.h"            // for set_dialect, print_dialects, etc...
+#include "verif_hooks.h"       // for BEEBTOOLS_VERIF_TRACE
 
 
 static bool usage(FILE *f, const char *progname)
@@ -226,5 +227,6 @@ int main(int argc, char *argv[])
       perror("stderr");  /* likely useless, but worthwhile attempt */
       exitval = 1;       /* but this is useful */
     }
+  BEEBTOOLS_VERIF_TRACE("RET %d\n", exitval);
   return exitval;
 }
